@@ -415,7 +415,7 @@ def run_binner_histories(ctx, only=None):
         # it refutes (generate() requires each mutant to be refuted by many sequences)
         if not q:
             BH.check_design(ctx, thorough=True)
-        A, walks = BH.generate(ctx, thorough=not q)
+        A, walks = BH.generate(ctx, thorough=not q, nwalks=None if q else 500)
         longer = [w for w in walks if w['src'] == 'walk']
         pairs = [w for w in walks if w['src'] == 'pair']
         some = longer + pairs[ctx.seed % 4::4]
@@ -484,7 +484,7 @@ def run(ctx):
                       traces='2-24 rows, wavelengths k/8 um (k in 8..128), 3/4 columns, random order, three sources; 4 columns: widths 1/8 um (disjoint), random 1/8..2 um, or narrow channels + 1-3 broad bands; random native model of 16-70 contiguous cells with integer cm-1 edges',
                       model_vectors='3 (3-4) rows over wavelengths {4,5,6,8,9,12}, widths {1,5} um in all combinations (4 columns) / derived (3 columns), native cells 40/80/120 cm-1, every row order, three sources',
                       binner_histories='observation (bins = 4 target bins of the BinnerHistory alphabet: overlapping, gapped, unsorted rows) -> create_binner() -> every ordered pair of 32 (40) '
-                      'operations (bindown with / without grid_width and error, bin_model, generate_spectrum_output x 3 sizes on 4 (5) native grids) and 120 (1200) random '
+                      'operations (bindown with / without grid_width and error, bin_model, generate_spectrum_output x 3 sizes on 4 (5) native grids) and 120 (500) random '
                       'sequences of 6 (9); sources array (all), text / hdf5 / 3-column array (the longer ones + a quarter of the pairs)',
                       obsbin_exhaustive='2-3 (2-4) rows over {4,5,10,20} ({4,5,10,20,25}) um, widths {1,7} um, native cells 200/400/600 (100/200/300) cm-1, FluxBinner window algorithm on the 12.5 (0.5) cm-1 lattice')
     ctx.assumptions = ['distinct positive wavelengths, >=2 rows, 4 columns: 0 < width < 2 wl; 3 columns: lowest mirrored edge positive',
